@@ -50,8 +50,57 @@ def gen(rnd, tier):
     return cases
 
 
+def program_family(res, tier, rnd):
+    """whole Programs: lines printed through the public API (Println / Printf commands and Program methods), with text
+    that would be mangled by an accidental second formatting pass, appear verbatim, once, in order"""
+    from .. import program as P
+    from .. import common as C
+    okb, out = C.build_harness()
+    if not okb:
+        raise C.Fail("harness build failed:\n" + out[-2000:])
+    texts = ["progress: 100% done", "50%", "a %s b %d c", "plain line", "100%% sure", "tab\there", "x" * 30]
+    scs, metas = [], []
+    for rep in range(3 if tier == "quick" else 20):
+        chosen = [rnd.choice(texts) + " #%d" % k for k in range(rnd.randint(1, 5))]
+        script = [P.W("started"), P.W("idle")]
+        for k, t in enumerate(chosen):
+            how = rnd.choice(["msg", "println", "printf"])
+            if how == "msg":
+                script.append(P.DO("send", msg=P.B("print", s=t)))
+            else:
+                script += [P.DO("api", kind=how, n=1, label=t), P.W("api")]
+            script += [P.DO("send", msg=P.U(k)), P.W("idle")]
+        script += [P.DO("quit"), P.W("returned")]
+        scs.append(P.scenario(len(scs), script, opts={"fps": 120}, parallel_ok=True, watchdog_ms=4000))
+        metas.append({"texts": chosen})
+    results, _ = P.run_scenarios("C14_prog", scs, timeout=600)
+    bad = []
+    for m, r in zip(metas, results):
+        if P.machinery_problem(r) or not r["run_returned"]:
+            bad.append((m, "scenario did not complete"))
+            continue
+        out_b = bytes(r["output"])
+        pos = -1
+        for t in m["texts"]:
+            n = out_b.count(t.encode())
+            i = out_b.find(t.encode())
+            if n != 1:
+                bad.append((m, "the printed line %r appears %d times in the output" % (t, n)))
+                break
+            if i < pos:
+                bad.append((m, "printed lines appear out of order"))
+                break
+            pos = i
+    res.oblige("Spec on real Programs: lines printed with Println / Printf (commands and Program methods, texts containing '%%') appear verbatim, once, in order (%d programs)" % len(scs),
+               not bad, bad[:2])
+    for m, what in bad[:1]:
+        res.violation("C14:program-print", what, {"scenario_meta": m})
+    res.coverage["program_family"] = len(scs)
+
+
 def run(res, tier, seed):
     rnd = random.Random(seed * 4001 + 14)
+    program_family(res, tier, rnd)
     return R.run_family(res, "C14", PROPS, gen(rnd, tier),
                         rule="print-heavy histories (single/multi-line, widths 0,1,W-1,W,W+1,2W,2W+3) interleaved with views of every height up to H (printing scrolls), initial rows above and initial cursor row varied, prints while the alt screen is active (discarded); oracle = rows above the view must equal initial rows ++ wrapped printed lines, in order, after every render; distinct = distinct (ops, initial rows)")
 
